@@ -313,7 +313,9 @@ def _renamed_smt2(solver):
         if z3.is_const(e) and e.decl().kind() == z3.Z3_OP_UNINTERPRETED:
             consts.setdefault(e.get_id(), e)
         elif z3.is_app(e) and e.decl().kind() == z3.Z3_OP_UNINTERPRETED:
-            raise Unencodable(f"cvc5 cross-check: uninterpreted function {e.decl().name()} (renaming handles constants only)")
+            # uninterpreted functions (fmod) keep their name when it is a plain SMT-LIB symbol
+            if not re.fullmatch(r"[A-Za-z_][A-Za-z0-9_]*", e.decl().name()):
+                raise Unencodable(f"cvc5 cross-check: uninterpreted function {e.decl().name()} (renaming handles constants only)")
         for c in e.children():
             walk(c)
     for a in solver.assertions():
